@@ -20,7 +20,8 @@ E == T[l]
 tvars == <<vars, l, fpend>>
 
 Named == {"SESSION_HANDLE_INVALID", "OBJECT_HANDLE_INVALID", "OPERATION_ACTIVE", "OPERATION_NOT_INITIALIZED"}
-Cls(x) == IF x = "OK" \/ x \in Named THEN x ELSE "ERR"
+ObjInv == {"OBJECT_HANDLE_INVALID", "KEY_HANDLE_INVALID", "WRAPPING_KEY_HANDLE_INVALID", "UNWRAPPING_KEY_HANDLE_INVALID"}
+Cls(x) == IF x \in ObjInv THEN "OBJECT_HANDLE_INVALID" ELSE IF x = "OK" \/ x \in Named THEN x ELSE "ERR"
 
 Range(s) == {s[i] : i \in DOMAIN s}
 
@@ -69,6 +70,11 @@ TDestroy  == IsEv("MDestroy") /\ DestroyObject(E.h, E.g) /\ Post /\ Keep
 TGetAttr  == IsEv("MGetAttr") /\ GetAttr(E.h, E.g) /\ Post /\ Keep
              /\ IF rv' = "OK" THEN out' = <<E.tag, E.lab>> ELSE E.clean     \* a denied read yields nothing
 TSetAttr  == IsEv("MSetAttr") /\ SetAttr(E.h, E.g, E.lab) /\ Post /\ Keep
+TUse      == IsEv("MUse") /\ UseObject(E.h, E.g, E.f, E.rv = "OK") /\ Post /\ Keep
+             /\ (rv' # "OK" => E.clean)                        \* a refused use produces no output
+TMake     == IsEv("MMake") /\ MakeKey(E.h, E.how, E.o, E.tokobj, E.priv, E.lab, E.nh, E.rv = "OK") /\ Post /\ Keep
+TMakePair == IsEv("MMakePair") /\ MakePair(E.h, E.o, E.o2, E.tokobj, E.priv, E.lab, E.nh, E.nh2, E.rv = "OK")
+             /\ Post /\ Keep
 TSize     == IsEv("MSize") /\ GetObjectSize(E.h, E.g) /\ Post /\ Keep
 
 \* ---- search.  found = <<handle, object id>> pairs in the order returned.
@@ -81,8 +87,8 @@ NhfOf(need) == [o \in need |-> IF \E p \in Found : p[2] = o THEN (CHOOSE p \in F
 TFindAll  == /\ IsEv("MFindAll")
              /\ IF E.h \in DOMAIN sess /\ E.h \in DOMAIN fpend THEN Fail("OPERATION_ACTIVE")
                 ELSE LET need == IF E.h \in DOMAIN sess
-                                 THEN {o \in FindSet(E.h, E.tmpl) : HandleOf(o) = {}} ELSE {} IN
-                     FindAll(E.h, E.tmpl, NhfOf(need))
+                                 THEN {o \in FindSet(E.h, Range(E.tmpl)) : HandleOf(o) = {}} ELSE {} IN
+                     FindAll(E.h, Range(E.tmpl), NhfOf(need))
              /\ Post /\ Keep
              /\ (rv' = "OK" => (FoundOK /\ out' = <<{p[1] : p \in Found}>>
                                 /\ \A p \in Found : p[1] \in DOMAIN oh' /\ oh'[p[1]] = p[2]))
@@ -93,7 +99,7 @@ TFindAll  == /\ IsEv("MFindAll")
 TFindInit == /\ IsEv("MFindInit")
              /\ IF E.h \notin DOMAIN sess THEN Fail("SESSION_HANDLE_INVALID") /\ Keep
                 ELSE IF E.h \in DOMAIN fpend THEN Fail("OPERATION_ACTIVE") /\ Keep
-                ELSE /\ fpend' = Ext(fpend, E.h, FindSet(E.h, E.tmpl))
+                ELSE /\ fpend' = Ext(fpend, E.h, FindSet(E.h, Range(E.tmpl)))
                      /\ Ok(NoOut) /\ UNCHANGED state
              /\ Post
 
@@ -117,7 +123,8 @@ TFind ==
             /\ \A p \in stale : p[1] \notin DOMAIN oh
             /\ \E gone \in SUBSET (pend \ {p[2] : p \in live}) :
                   /\ Cardinality(gone) = Cardinality(stale)
-                  /\ \A o \in gone : o \notin DOMAIN obj \/ ~Visible(E.h, o) \/ HandleOf(o) = {}
+                  /\ \A o \in gone : IF o \notin DOMAIN obj THEN TRUE
+                                      ELSE IF ~Visible(E.h, o) THEN TRUE ELSE HandleOf(o) = {}
                   /\ fpend' = [fpend EXCEPT ![E.h] = (pend \ {p[2] : p \in live}) \ gone]
             /\ oh'     = [g \in (DOMAIN oh) \cup new |->
                              IF g \in DOMAIN oh THEN oh[g] ELSE (CHOOSE p \in need : p[1] = g)[2]]
@@ -135,6 +142,7 @@ TFindFinal == /\ IsEv("MFindFinal")
 TInit == Init /\ l = 1 /\ fpend = <<>> /\ TLCSet(1, 1)
 TNext == \/ TReset \/ TOpen \/ TClose \/ TCloseAll \/ TInfo \/ TLogin \/ TLogout
          \/ TInitToken \/ TInitPIN \/ TSetPIN
+         \/ TUse \/ TMake \/ TMakePair
          \/ TCreate \/ TCopy \/ TDestroy \/ TGetAttr \/ TSetAttr \/ TSize
          \/ TFindAll \/ TFindInit \/ TFind \/ TFindFinal
 TSpec == TInit /\ [][TNext]_tvars
